@@ -2234,7 +2234,7 @@ LEVEL_NOTE = (
     "inner Select: the model has no such constructs, the Lean Spec is evaluated on the implementation's output there), the event-level positions and the re-translation histories "
     "(PlacementSpec + AliveSpec on the implementation's output and the compiled per-event method over mock events; the model of the block structure is proved to satisfy AliveSpec "
     "but is not compared line by line with the rendered method), the package rendering beyond its include lists, "
-    "float-typed operands, % and not (accepted, judged by the Spec on the implementation), and the numeric values (libm is trusted). The hand model's agreement with the "
+    "float-typed operands, % and not (accepted — `not x` is declared bool since ea7911a, so it is refused as an operand of + - * / % and accepted elsewhere; judged by the Spec on the implementation), and the numeric values (libm is trusted). The hand model's agreement with the "
     "python is checked by differential execution on three backends, not proved. Trusted: Lean kernel (axioms audited), translator, harness, my reading of <cmath>."
 )
 TECHNIQUE = "Lean 4 theorems over tables regenerated from the source (decide) and over a hand model (induction) + correspondence check against the real pipeline + g++ value oracle"
